@@ -30,6 +30,24 @@ MP = 'ombott.request_pkg.multipart'
 BM = 'ombott.request_pkg.body_mixin'
 
 
+def section_pairing(ii):
+    """how FieldStorage.iter_items pairs the sections of the markup: (headers name, data name, strictly alternating?, node) or None"""
+    nx = [c for c in walk_shallow(ii.node) if isinstance(c, ast.Call) and dotted(c.func) == 'next' and len(c.args) == 2]
+    pairs = [T.assigned_name_of_call(c) for c in nx]
+    if len(pairs) >= 3 and all(pairs[1:]):
+        ok = len(pairs) == 5 and pairs[1] == pairs[3] and pairs[2] == pairs[4] and pairs[1] != pairs[2]
+        return pairs[1], pairs[2], ok, nx[1]
+    for lp in walk_shallow(ii.node):
+        if isinstance(lp, ast.For) and isinstance(lp.iter, ast.Call) and (dotted(lp.iter.func) or '').split('.')[-1] in ('zip_longest', 'zip') \
+                and isinstance(lp.target, ast.Tuple) and len(lp.target.elts) == 2 and all(isinstance(e, ast.Name) for e in lp.target.elts):
+            a = lp.iter.args
+            # the same iterator object twice: consecutive items are paired.  zip() would silently drop a trailing header section
+            ok = len(a) == 2 and isinstance(a[0], ast.Name) and src(a[0]) == src(a[1]) and dotted(lp.iter.func).split('.')[-1] == 'zip_longest' \
+                and not lp.iter.keywords
+            return lp.target.elts[0].id, lp.target.elts[1].id, ok, lp
+    return None
+
+
 def check(P, R):
     R.rule('C07.a', 'upload window never reads outside its part', floor=5)
     R.rule('C07.b', 'header parameters tokenised with quoted strings atomic', floor=2)
@@ -246,13 +264,15 @@ def check(P, R):
     R.ob('C07.c', po, first[0] if first else lp, ok, text='first value: post[key] = dct[key] = it', detail='' if ok else 'the first value is not stored in both POST and forms/files')
     # iter_items alternates headers / data
     ii = P.func(f'{MP}:FieldStorage.iter_items')
-    nx = [c for c in walk_shallow(ii.node) if isinstance(c, ast.Call) and dotted(c.func) == 'next' and len(c.args) == 2]
-    pairs = [T.assigned_name_of_call(c) for c in nx]
-    ok = len(pairs) == 5 and pairs[1] == pairs[3] and pairs[2] == pairs[4] and pairs[1] != pairs[2]
-    asserts = [a for a in walk_shallow(ii.node) if isinstance(a, ast.Assert)]
-    ok = ok and any("'headers'" in src(a) for a in asserts) and any("'data'" in src(a) for a in asserts)
-    R.ob('C07.c', ii, nx[1] if len(nx) > 1 else ii.node, ok, text='sections consumed pairwise: headers, then data', detail='' if ok else
-         'header and data sections are not paired strictly alternately')
+    pr = section_pairing(ii)
+    if pr is None:
+        R.undecided('C07.c', ii, ii.node, 'iter_items: pairing of header and data sections', 'neither next(it, None) pairs nor a loop over zip(it, it)')
+    else:
+        hname_, dname_, ok, where_ = pr
+        asserts = [a for a in walk_shallow(ii.node) if isinstance(a, ast.Assert)]
+        ok = ok and any("'headers'" in src(a) for a in asserts) and any("'data'" in src(a) for a in asserts)
+        R.ob('C07.c', ii, where_, ok, text='sections consumed pairwise: headers, then data', detail='' if ok else
+             'header and data sections are not paired strictly alternately')
     ys = T.yield_nodes(ii.cfg)
     flds = [d.name for n in ii.cfg.nodes for d in ii.rd.gen.get(n, []) if d.kind == 'assign' and isinstance(d.value, ast.Call) and dotted(d.value.func) == 'cls']
     ok = len(ys) == 1 and bool(flds) and src([x for x in walk_shallow(ys[0].ast) if isinstance(x, ast.Yield)][0].value) == flds[0]
